@@ -80,8 +80,17 @@ def provenance(check: Check, repo) -> None:
                     check.oblige("FURTHEST", f"{rel}::{q}", f"{t.attr} written in {q}" if ok else f"{t.attr} is written outside ParserState.__init__/fail", ok,
                                  finding=Finding("FURTHEST", f"{rel}::{q}", f"{t.attr} is written outside ParserState.__init__/fail", f"{q} assigns {ast.unparse(t)}: the furthest-failure record no longer comes from fail() alone", {}))
     # (that fail() records the defaulted position is decided on model histories by the FAIL rule, sa/failsem.py)
-    init = ast.unparse(repo.func(STATE_REL, "ParserState.__init__"))
-    check.oblige("FURTHEST", f"{STATE_REL}::ParserState.__init__", "sentinel -1 before any failure" if "self.furthest_pos = -1" in init else "furthest_pos does not start at the sentinel -1", "self.furthest_pos = -1" in init)
+    # the sentinel: a fresh state reports -1 (read on the model through the state's own attribute or property)
+    from ..failsem import RELS as _FAIL_RELS
+    from ..objmodel import ClassModel, model_attr, new_parser_state
+    from ..ordabs import ModelRaise, Obj
+
+    cm = ClassModel(repo, _FAIL_RELS, "C13 FURTHEST", {"Generic": None}, max_steps=20000)
+    try:
+        first = model_attr(cm, new_parser_state(cm, "xx", 0, Obj("Parser", rules={}), "C13 FURTHEST"), "furthest_pos")
+    except ModelRaise as err:
+        first = f"raises {err}"
+    check.oblige("FURTHEST", f"{STATE_REL}::ParserState.__init__", "sentinel -1 before any failure" if first == -1 else f"a fresh state's furthest position is {first}, not the sentinel -1", first == -1)
     # call sites of fail(): no explicit pos, rule_name provenance
     n_sites = 0
     for rel in repo.py_files:
@@ -252,5 +261,8 @@ def run(tier: str) -> Check:
 
     check.second_opinion(lambda c: line_offsets(c, repo, "LINE-OFFSET", ["src/pest/exceptions.py"], 1), "CONTEXT", not bad_c)
     check.floor("fail_call_sites", 8)  # a vacuity guard, not a census
-    check.floor("furthest_writes", 8)
+    if check.units.get("furthest_writes", 0) == 0:
+        # the record is no longer kept in attributes called furthest_*: who writes it is not read from names; what
+        # fail() records is decided by FAIL / FAIL-NAMES on the model, through the state's own attributes / properties
+        check.notes.append("FURTHEST: no attribute named furthest_* is assigned anywhere; the provenance reading does not apply to this representation (FAIL decides)")
     return check
